@@ -272,6 +272,17 @@ func (r *replayer) runCase(fam string, c *caseRec, docs []interface{}, docsTagge
 		if want == "err" {
 			if co.Kind != "err" {
 				r.add(mk("compile-accepted", -1, want, co.String()))
+				// an expression that should not have compiled: it must at least not misbehave when searched (C04, C05)
+				for di := range docs {
+					doc := docs[di]
+					r.cur.Store(mk("timeout", di, nil, "no return within watchdog"))
+					o := direct(func() (interface{}, error) { return jp.Search(doc) })
+					atomic.AddInt64(&r.progress, 1)
+					r.sum.Evaluations++
+					if o.Kind == "panic" {
+						r.add(mk("panic", di, []interface{}{[]interface{}{"unspec"}}, o.String()))
+					}
+				}
 			}
 			continue
 		}
@@ -317,7 +328,7 @@ func (r *replayer) runCase(fam string, c *caseRec, docs []interface{}, docsTagge
 				continue
 			}
 			docCanary := false
-			if r.docCanEvery > 0 && r.calls%r.docCanEvery == 0 {
+			if r.docCanEvery > 0 && r.calls%r.docCanEvery == 0 && reflect.DeepEqual(snap, doc) {
 				// canary: write to the document behind the library's back; the snapshot comparison must notice
 				if m, ok := doc.(map[string]interface{}); ok {
 					m["☃canary"] = true
